@@ -86,6 +86,11 @@ def hkw(x): return h2(b=x, a=G2)
 def hkw2(x, y): return h1(x) + hkw(y) + h2(b=1, a=y)
 def hsel(s, k): return s.Where(lambda v: v > k).Count()
 def hshadow(x): return h1((lambda x: x + 100)(x)) + x
+# parameters that are not plain positional ones: keyword-only, positional-only, *args (wave-8 audit: such helpers were inlined
+# by counting the plain parameters only, the others stayed behind as free names)
+def hko(x, *, k=3): return x * k + 1
+def hpo(x, /, y=2): return x - y
+def hva(x, *rest): return x * 2 + 1
 
 
 hl = lambda q: q + G2  # noqa: E731
@@ -178,14 +183,18 @@ def gen_body(rng, focus: str = "") -> Tuple[str, set]:
         body = f"({body}, Pair(G1, b=c2).b + NT(1, y=c1).y)"
     elif extra < 0.3:
         body = f"({body}, (e.met if GS == 'pt' else 0))"
-    elif extra < 0.38:
+    elif extra < 0.36:
+        arg = rng.choice(["e.met", "c1 + 1", "G1"])
+        body = rng.choice([f"({body}, hko({arg}, k=7), hko({arg}))", f"(hpo({arg}, y=1) + hpo({arg}), {body})", f"({body}, hva({arg}, 1, 2) + hva({arg}))",
+                           f"({body}, hko({arg}) + hva({arg}))"])
+    elif extra < 0.40:
         # a callee that resolves to a real Python callable (module function): the call stays, but the captured variables and
         # nested lambdas INSIDE its arguments are frozen like everywhere else (seed C04-w6-2)
         arg = rng.choice(["e.met * c1 + G1", "c2", "Count(e.jets.Where(lambda j: j.pt > c1)) + G2", "h1(c1) + e.run",
                           "(lambda t: t + c2)(e.met)", "Cfg.threshold + c1"])
         body = rng.choice([f"({body}, math.gcd({arg}, G1 + 7))", f"(math.floor({arg}) + c2, {body})",
                            f"({body}, math.gcd(b=c1 + 3, a={arg}))" if False else f"({body}, math.gcd(c1 + 3, {arg}))"])
-    elif extra < 0.42:
+    elif extra < 0.44:
         # enum members stay references by name (resolved by the backend); their use must not disturb anything else
         body = rng.choice([f"({body}, (e.met if Color.RED == Color.RED else 0))", f"({body}, Color.BLUE.value + c1)",
                            f"((1 if Color.RED != Color.BLUE else G1), {body})"])
@@ -412,6 +421,17 @@ def run_cases(ctx, n: int, focus: str):
                 if got != exp[1]:
                     bad = {"python": repr(exp[1])[:200], "recorded": repr(got)[:200]}
                     break
+            # every position of the recorded lambda is its own node object: the passes that follow (type following, callbacks)
+            # edit nodes in place, so one object standing in two places is edited twice (wave-8 audit, C09 d4: an argument
+            # used twice by an inlined helper)
+            seen_ids = {}
+            for n_ in ast.walk(lam):
+                if getattr(n_, "_fields", ()) and not isinstance(n_, (ast.expr_context, ast.operator, ast.unaryop, ast.cmpop, ast.boolop)):
+                    if id(n_) in seen_ids:
+                        ctx.violate({"body": body, "c1": c1, "recorded_lambda": ast.unparse(lam), "shared": ast.unparse(n_)[:80]},
+                                    "one node object stands in several places of the recorded lambda")
+                        break
+                    seen_ids[id(n_)] = True
             if bad:
                 ctx.violate({"body": body, "c1": c1, "recorded_lambda": ast.unparse(lam), **bad},
                             "the recorded lambda does not compute what the Python lambda computes",
